@@ -274,10 +274,12 @@ def run_shard(sh):
                          f"class GP_{i}(typing.Generic[_T{i}, _U{i}]):\n"
                          f"    def __init__(self, first: _T{i}, rest: typing.List[_U{i}], tag: typing.Dict[str, bytes]):\n"
                          f"        self.first, self.rest, self.tag = first, rest, tag\n"
-                         f"@dataclasses.dataclass\nclass GD_{i}(typing.Generic[_T{i}]):\n    item: _T{i}\n    items: typing.List[_T{i}]\n")
+                         f"@dataclasses.dataclass\nclass GD_{i}(typing.Generic[_T{i}]):\n    item: _T{i}\n    items: typing.List[_T{i}]\n"
+                         # a type parameter that no field uses (a typed reference): the argument is a member all the same
+                         f"@dataclasses.dataclass\nclass GR_{i}(typing.Generic[_T{i}, _U{i}]):\n    id: int\n    tag: _U{i}\n")
                     s0 = rng.choice(comps or gens)
                     for src in rng.sample([f"GP_{i}[int, {s0.src}]", f"list[GP_{i}[{s0.src}, str]]", f"GD_{i}[{s0.src}]", f"dict[str, GD_{i}[{s0.src}]]",
-                                           f"tuple[GD_{i}[int], GD_{i}[{s0.src}]]"], 3):
+                                           f"tuple[GD_{i}[int], GD_{i}[{s0.src}]]", f"GR_{i}[{s0.src}, int]", f"dict[str, GR_{i}[{s0.src}, str]]"], 4):
                         sh.count("user_generic_roots")
                         check_root(sh, src, prog.ev(src), steps, prog.source)
                 if i % 50 == 0:
